@@ -63,7 +63,7 @@ def _entries(ctx, facts):
         cone = facts.cone([b], stop=lambda x: x.key == ins.key or (x.key == add.key and b.key != add.key))
         if not any(Callee(t["func"]).key == ins.key or Callee(t["func"]).resolved_key == ins.key for x in cone.values() for bb, t in x.normal_calls()):
             continue
-        if not b.raw.get("pub") and S.owned_by(facts, b, set(x.key for x in facts.find(self_head=A.DB, container="inherent") if x.raw.get("pub"))):
+        if not b.api and S.owned_by(facts, b, set(x.key for x in facts.find(self_head=A.DB, container="inherent") if x.api)):
             continue   # a private helper of an entry: looked at inside the entry
         # an entry other than `add` may do more than registering (add_batch builds the inner dispatcher first): what it does
         # besides is kept out of the picture
@@ -315,6 +315,32 @@ def reject(ctx, report, rule, facts, config):
         _reject_one(ctx, report, rule, facts, config, M, insb)
     NAME_P, DEP_P = 3, 4
     _forwarders(ctx, report, rule, facts, config, add, [m.body.key for m in entries])
+    _map_writers(ctx, report, rule, facts, config, set(m.body.key for m in entries))
+
+
+MAP_MUTATORS = set(["insert", "remove", "remove_entry", "clear", "retain", "drain", "entry", "extend", "get_mut", "values_mut", "iter_mut", "try_insert", "extract_if"])
+
+
+def _map_writers(ctx, report, rule, facts, config, entry_keys):
+    """The name map is what the duplicate test and the dependency lookup consult: it says which names are taken only if nothing but
+    the registration entries (and helpers only they reach) ever changes it."""
+    from . import inventory as I
+    n = 0
+    for b in sorted(facts.bodies.values(), key=lambda b: b.key):
+        for bb, t in b.normal_calls():
+            c = Callee(t["func"])
+            if c.local or c.name not in MAP_MUTATORS:
+                continue
+            ty = I.recv_ty(t)
+            if not (("SystemId" in ty or "SystemId" in c.inst_path) and ("HashMap<std::string::String" in ty or "HashMap::<std::string::String" in c.inst_path)):
+                continue
+            n += 1
+            r = facts.bodies.get(b.root_key, b) if b.is_closure and b.root_key else b
+            ok = S.owned_by(facts, r, entry_keys)
+            report.ob(rule, "name-map-writer/%s/%s" % (r.qname, c.name), ok, "the name map is changed (%s) in a registration entry" % c.name if ok else
+                      "the name map is changed through `%s` in %s, which is not a registration entry: the duplicate test and the dependency lookup would no longer see the names of the registered systems" % (c.name, r.qname),
+                      site=b.loc(bb), config=config)
+    report.floor(rule, "writes to the name map", n, 1, config=config)
 
 
 def _forwarders(ctx, report, rule, facts, config, add, entry_keys):
